@@ -21,8 +21,8 @@ NOT_APPLICABLE = {
 PENDING = {}
 
 TECH = {
-    "C01": "deterministic simulation: seeded operation histories x hook-fault injection (once/multi/persistent, all 8 hooks, BaseException too) with fault-position sweeps, C01 invariant after every call, both ANYTREE_ASSERTIONS settings",
-    "C02": "deterministic simulation: seeded fault-free operation histories, step-by-step refinement against a forest reference model",
+    "C01": "deterministic simulation: seeded operation histories (2..14 nodes, rarely 40-300, rarely one 1000+ deep chain; plain, value-equality, falsy, container-like, slots and symlink node classes) x hook-fault injection (once/multi/persistent, all 8 hooks, 7 exception classes incl. BaseException, hooks that read or move nodes) with fault-position sweeps; C01 invariant after every call; both ANYTREE_ASSERTIONS settings",
+    "C02": "deterministic simulation: seeded fault-free operation histories (incl. wide, big and 1000+ deep universes, hooks that detach another node), step-by-step refinement against a forest reference model",
     "C03": "deterministic simulation: seeded histories x pre-hook fault enumeration (every position, multi, persistent) and invalid requests, pre/post snapshot equality with exactly-predicted known deviations",
     "C16": "deterministic simulation: recorded hook history (with in-hook observations) vs model-derived trace and per-node bracket automaton, under hook-fault injection on all 8 hooks",
 }
